@@ -4,7 +4,7 @@
    /repo/renormalizer/tn/treebase.py on every run.  Scalars: every commutative ring (Base/CRing.v). *)
 From Coq Require Import ZArith List Arith Permutation.
 Import ListNotations.
-From RV Require Import Base.CRing Gen.Partition Gen.RootCover Model.TreeTopo Gen.TreeBuilders Model.Ttno
+From RV Require Import Base.CRing Gen.Partition Gen.RootCover Gen.UniqueRows Model.TreeTopo Gen.TreeBuilders Model.Ttno
   Proofs.TreeTopoProofs Proofs.TreeBuildersProofs Proofs.TtnoProofs.
 
 (* ---------------------------------------------------------------- tree constructors *)
@@ -97,6 +97,24 @@ Theorem C02_ttno_sound_table : forall (R : CRing) tr (T : table R) ws,
   forall s, length s = width tr -> final_den R tr T ws s = coeff T s.
 Proof. exact ttno_sound_table. Qed.
 Print Assumptions C02_ttno_sound_table.
+
+(* ---- the unique-rows step.  Everything after `np.unique(table_row, axis=0, return_inverse=True)` works on row
+   INDICES.  The generated fact (Gen/UniqueRows.v) names the call found in the source; its specification is
+   (term_rows, row_inverse); and the construction is sound because an index determines the row: *)
+Theorem C02_row_index_call_spec :
+  row_index_spec row_index_call = Some (fun keys => (term_rows keys, row_inverse keys)).
+Proof. exact row_index_call_spec. Qed.
+Print Assumptions C02_row_index_call_spec.
+
+Theorem C02_row_index_reconstruct : forall (keys : list key) t, t < length keys ->
+  nth (nth t (row_inverse keys) O) (term_rows keys) [] = nth t keys [].
+Proof. exact row_index_reconstruct. Qed.
+Print Assumptions C02_row_index_reconstruct.
+
+Theorem C02_row_index_injective : forall (keys : list key) s t, s < length keys -> t < length keys ->
+  (nth s (row_inverse keys) O = nth t (row_inverse keys) O <-> nth s keys [] = nth t keys []).
+Proof. exact row_index_injective. Qed.
+Print Assumptions C02_row_index_injective.
 
 (* ---- the qr algorithm.  One step, relative to an exact factorisation witness: [qrows]/[qcols] are
    duplicate-free lists containing the row / column keys, q the out-operators (sparse columns of Q), r the
@@ -303,3 +321,9 @@ Proof.
   split; [vm_compute; reflexivity|]. split; [vm_compute; reflexivity|]. split; [|vm_compute; reflexivity].
   intros x Hx. vm_compute in Hx. intuition (subst; reflexivity).
 Qed.
+
+(* rows are compared as tuples, entry by entry (no packing into one machine integer) *)
+Example C02_ex_row_index :
+  term_rows [[0; 300; 7]; [0; 2; 9]; [0; 300; 7]; [0; 2; 265]] = [[0; 2; 9]; [0; 2; 265]; [0; 300; 7]] /\
+  row_inverse [[0; 300; 7]; [0; 2; 9]; [0; 300; 7]; [0; 2; 265]] = [2; 0; 2; 1].
+Proof. vm_compute. split; reflexivity. Qed.
